@@ -98,8 +98,11 @@ impl ClientTsx {
 
         match self.state {
             State::Init if !self.request.parts.transport.reliable() => {
+                // Timer E: starts at T1 and doubles until it reaches T2
+                let mut n = T1;
+
                 loop {
-                    let receive = timeout(T2, registration.receive_response());
+                    let receive = timeout(n, registration.receive_response());
 
                     match timeout_at(self.timeout.into(), receive).await {
                         Ok(Ok(msg)) => return self.handle_msg(msg),
@@ -109,6 +112,8 @@ impl ClientTsx {
                                 .endpoint
                                 .send_outgoing_request(&mut self.request)
                                 .await?;
+
+                            n = (n * 2).min(T2);
                         }
                         Err(_) => return Err(Error::RequestTimedOut),
                     }
